@@ -262,14 +262,16 @@ Definition fs_step (cap : nat) (s : st) (o : op) : res (st * out) :=
 Definition step (k : kind) : nat -> st -> op -> res (st * out) :=
   match k with StaticSet => ss_step | FlatSet => fs_step end.
 
-(* a history runs until its end or until a precondition fires (the harness stops there too) *)
-Fixpoint run (k : kind) (cap : nat) (s : st) (ops : list op) : res (st * list out) :=
+(* a history runs until its end or until a precondition fires (the harness stops there too);
+   the trace holds, per executed call, what it returned and the contents of the set after it *)
+Fixpoint run (k : kind) (cap : nat) (s : st) (ops : list op) : res (st * list (out * list A)) :=
   match ops with
   | [] => Ok (s, [])
   | o :: t =>
       do r <- step k cap s o;
-      if is_contract (snd r) then Ok (fst r, [snd r])
-      else do r2 <- run k cap (fst r) t; Ok (fst r2, snd r :: snd r2)
+      let ev := (snd r, cur (fst r)) in
+      if is_contract (snd r) then Ok (fst r, [ev])
+      else do r2 <- run k cap (fst r) t; Ok (fst r2, ev :: snd r2)
   end.
 
 (** * Everything a lookup key can be asked, on one state *)
